@@ -775,6 +775,66 @@ theorem outputLoss_itemwise (rho : ℝ → ℝ) (o₁ o₂ : Output ℝ) :
     outputLoss rho (o₁ ++ o₂) = outputLoss rho o₁ + outputLoss rho o₂ := by
   rw [outputLoss_eq, outputLoss_eq, outputLoss_eq, List.map_append, List.sum_append]
 
+/-! ## hardening pass 2: atomicity of a failing call, independence of copies -/
+
+/-- a call whose very first solve raises leaves parameters and param group untouched and caches the true loss -/
+theorem failed_call_state (o : Opt P S ℝ) (ho : Consistent pr o) (hraise : e.solve 0 o.p = none) :
+    (lmCall pr reject o e).p = o.p ∧ (lmCall pr reject o e).s = o.s ∧
+      (lmCall pr reject o e).cached = some (pr.lossAt o.p) ∧ (lmCall pr reject o e).rc = 0 := by
+  have hst : (start pr o.cached o.p o.s : St P S ℝ) =
+      { p := o.p, s := o.s, loss := pr.lossAt o.p, last := pr.lossAt o.p, rc := 0, solves := 0, live := true } := by
+    rcases ho with h | h <;> rw [h] <;> rfl
+  have hb : body pr reject e (start pr o.cached o.p o.s) =
+      { p := o.p, s := o.s, loss := pr.lossAt o.p, last := pr.lossAt o.p, rc := 0, solves := 1, live := false } := by
+    rw [hst, raise_pass_no_update pr reject e _ rfl (le_refl _) hraise]
+  have hl : lmStep pr reject e o.cached o.p o.s =
+      { p := o.p, s := o.s, loss := pr.lossAt o.p, last := pr.lossAt o.p, rc := 0, solves := 1, live := false } := by
+    unfold lmStep
+    rw [loop_succ, hb]
+    exact loop_dead pr reject e _ _ rfl
+  unfold lmCall
+  rw [hl]
+  exact ⟨rfl, rfl, rfl, rfl⟩
+
+/-- **A failing call is transparent**: after the caller catches the exception, retrying or continuing with any other
+call gives exactly the result of the history without the failed call. -/
+theorem failed_call_transparent (o : Opt P S ℝ) (ho : Consistent pr o) (hraise : e.solve 0 o.p = none)
+    (e₂ : Env P D S ℝ) :
+    lmCall pr reject (lmCall pr reject o e) e₂ = lmCall pr reject o e₂ := by
+  obtain ⟨hp, hs, hc, _⟩ := failed_call_state pr reject e o ho hraise
+  have key : ∀ (c : Option ℝ), (c = none ∨ c = some (pr.lossAt o.p)) →
+      lmStep pr reject e₂ (some (pr.lossAt o.p)) o.p o.s = lmStep pr reject e₂ c o.p o.s := by
+    intro c hc'
+    rcases hc' with rfl | rfl
+    · exact cache_transparent pr reject e₂ o.p o.s
+    · rfl
+  unfold lmCall at *
+  simp only at hp hs hc ⊢
+  rw [hp, hs, hc, key o.cached ho]
+
+/-- **Interleaved use of independent objects = each used alone** (any state type, any step function): a history that
+alternates between two optimizers (an original and its copy, two optimizers of different kind, …) factors into the two
+separate histories. -/
+theorem interleave_independent {σ ε : Type} (f : σ → ε → σ) (evs : List (Bool × ε)) (a b : σ) :
+    evs.foldl (fun (st : σ × σ) ev => if ev.1 then (f st.1 ev.2, st.2) else (st.1, f st.2 ev.2)) (a, b) =
+      (((evs.filter (fun ev => ev.1)).map (fun ev => ev.2)).foldl f a,
+       ((evs.filter (fun ev => !ev.1)).map (fun ev => ev.2)).foldl f b) := by
+  induction evs generalizing a b with
+  | nil => rfl
+  | cons ev evs ih =>
+    obtain ⟨bb, x⟩ := ev
+    cases bb with
+    | true => simp only [List.foldl_cons, if_true, List.filter_cons, Bool.not_true]; rw [ih]; simp
+    | false => simp only [List.foldl_cons, Bool.false_eq_true, if_false, List.filter_cons, Bool.not_false]; rw [ih]; simp
+
+/-- … instantiated: an optimizer and its copy (same state) used interleaved each follow `lmRun` on their own calls -/
+theorem copies_independent (o : Opt P S ℝ) (evs : List (Bool × Env P D S ℝ)) :
+    evs.foldl (fun (st : Opt P S ℝ × Opt P S ℝ) ev =>
+        if ev.1 then (lmCall pr reject st.1 ev.2, st.2) else (st.1, lmCall pr reject st.2 ev.2)) (o, o) =
+      (lmRun pr reject o ((evs.filter (fun ev => ev.1)).map (fun ev => ev.2)),
+       lmRun pr reject o ((evs.filter (fun ev => !ev.1)).map (fun ev => ev.2))) :=
+  interleave_independent (lmCall pr reject) evs o o
+
 /-! ## non-vacuity: concrete runs of the model (`P = D = ℚ`-like reals, loss `x²`) -/
 
 section examples
